@@ -175,8 +175,20 @@ def r_same_text(ctx):
                 ok = S(file) == 'into(s)' or S(file) == 's'
                 ok = ok and S(pcs[0][2][0]) == S(file) and all(S(w[2][1]) == S(file) for w in wf)
     ctx.ob(rid, 'template-new', ok, 'TemplateProgram::new parses, attaches and stores the same text s.into()', tn.where())
+    wfn = ctx.anchor(fx, 'error::RichError::with_file')
+    rets = [ret for kind, p, ret in explore(ctx, wfn) if kind == 'RET']
+    me, arg = ('param', 0, wfn.names.get(1, 'self')), ('param', 1, wfn.names.get(2, 'file'))
+    some = ('agg', 'adt:std::option::Option::Some', (arg,))
+
+    def verbatim(r):
+        # struct literal { error: self.error, span: self.span, file: Some(file) } or self with file := Some(file)
+        if r[0] == 'agg' and r[1].endswith('RichError::RichError'):
+            return r[2] == (('field', me, 'error'), ('field', me, 'span'), some)
+        return r == ('upd', me, (('file', some),))
+    ctx.ob(rid, 'with_file', bool(rets) and all(verbatim(r) for r in rets), 'with_file keeps error and span and attaches Some(file) with file the argument itself, on every path', wfn.where(),
+           '; '.join(S(r) for r in rets)[:300])
     deny = re.compile(r'::(trim\w*|replace\w*|to_lowercase|to_uppercase|strip_\w+|split\w*|lines|chars)$')
-    for path in ('<A as parse::ParseFromStr>::parse_from_str', 'TemplateProgram::new', 'CompiledProgram::new', 'TemplateProgram::instantiate'):
+    for path in ('<A as parse::ParseFromStr>::parse_from_str', 'TemplateProgram::new', 'CompiledProgram::new', 'TemplateProgram::instantiate', 'error::RichError::with_file'):
         fn = ctx.anchor(fx, path)
         hits = [c for bid, c, t in fn.calls() if deny.search(c)]
         ctx.ob(rid, 'no-text-transform:' + path, not hits, 'no string transformation in %s' % path, fn.where(), str(hits))
